@@ -83,3 +83,66 @@ Proof.
   vm_compute in E. inversion E; subst. eexists _, _. split; [reflexivity|].
   eexists. split; [right; right; left; reflexivity|]. vm_compute. repeat constructor.
 Qed.
+
+(* ====================== the page-graph oracle accepts the model ======================
+   The link between the two halves of the C11 check. SM judges the dumped page graph with
+   Spec/DumpCheck.v `dumps_ok` (shape, key order, separators as bounds, both sibling chains,
+   point lookups, no page visited twice, pages below nextFreeOffset - starting from the header's
+   page-table root and the root offsets stored in the page table's rows); MM compares the dump with
+   the flattening of the model's forest (`model_agrees`). Proofs/DumpOracle.v: every store that
+   represents a database (RefineRep.Rep = SInv + the catalog invariant) dumps to a page list that
+   dump_ok accepts (`dump_ok_rep`: check_tree accepts every WFT tree, the catalog rows name exactly
+   roots of forest members); along every history of statements, flushes, crash-restarts, table
+   read-backs and dumps the cache keeps representing a database (MovesFromRep.RInv); and dump_ok
+   reads only fields that the comparison `pobs_eqb` compares. Hence agreement with the model (MM =
+   []) implies acceptance (SM = []).
+   Hypotheses (booleans on the history, the ones of C01's oracle theorem that keep `Rep` alive):
+   hist_shape_c (the events of the check), hev_ok (literals are Go values), frontier_ok (the file
+   stays below 2^63 bytes). SInv alone would not do: DumpOracle.sinv_alone_not_enough. *)
+From Mkdb Require Import Spec.HistObs Spec.DumpCheck Proofs.OracleSound Proofs.OracleCrash Proofs.DumpOracle.
+From Mkdb Require Proofs.RefineRep.
+
+Theorem C11_dump_accepted : forall s d, RefineRep.Rep s d -> dump_ok (dump_of s) = true.
+Proof. exact dump_ok_rep. Qed.
+Print Assumptions C11_dump_accepted.
+
+Theorem C11_oracle_accepts_model : forall hevs,
+  hist_shape_c hevs = true ->            (* statements, flushes, crash-restarts, read-backs, dumps *)
+  forallb hev_ok hevs = true ->          (* literals are Go values *)
+  frontier_ok init_sys hevs = true ->    (* the data file stays below 2^63 bytes *)
+  dumps_ok (hevs, run_h init_sys hevs) = true.
+Proof. exact model_dumps_pass. Qed.
+Print Assumptions C11_oracle_accepts_model.
+
+Theorem C11_agreement_implies_acceptance : forall c,
+  hist_shape_c (fst c) = true -> forallb hev_ok (fst c) = true -> frontier_ok init_sys (fst c) = true ->
+  model_agrees c = true -> dumps_ok c = true.
+Proof. exact dumps_agreement_implies_acceptance. Qed.
+Print Assumptions C11_agreement_implies_acceptance.
+
+(* non-vacuity: 20 rows split the root of t (an internal root over 4 leaves), dumps before and
+   after a flush + crash-restart, a DELETE, a failing INSERT (INT range), a second table, a crash
+   with the last statements only in the log; all hypotheses hold, the model produces 5 dumps, the
+   last one lists 8 pages of which one is internal, and the oracle accepts *)
+Definition hevs_dump_demo : list hevent :=
+  HEv (EvStmt (SCreateTable "t" [mkColDef "a" STNumeric])) ::
+  map (fun i => HEv (EvStmt (SInsert "t" [] [[VInt (Z.of_nat i)]]))) (seq 0 20) ++
+  [HDumpPages; HEv EvFlush; HEv EvCrash; HDumpPages;
+   HEv (EvStmt (SDelete "t" (Some (EPred (XCol (mkCol "" "a")) CEq (XLit (VInt 2))))));
+   HEv (EvStmt (SInsert "t" [] [[VInt 2147483648]]));
+   HReadTables ["t"]; HDumpPages;
+   HEv (EvStmt (SCreateTable "u" [mkColDef "x" STBigInt]));
+   HEv (EvStmt (SInsert "u" [] [[VInt 7]])); HDumpPages;
+   HEv EvCrash; HDumpPages].
+
+Example C11_oracle_demo :
+  hist_shape_c hevs_dump_demo = true /\ forallb hev_ok hevs_dump_demo = true /\
+  frontier_ok init_sys hevs_dump_demo = true /\
+  model_agrees (hevs_dump_demo, run_h init_sys hevs_dump_demo) = true /\
+  flat_map (fun o => match o with
+                     | HDump _ ps => [(List.length ps,
+                                       List.length (filter (fun p => match p with PInt _ _ _ _ _ => true | _ => false end) ps))]
+                     | _ => [] end) (run_h init_sys hevs_dump_demo) =
+    [(7, 1); (7, 1); (7, 1); (8, 1); (8, 1)]%nat /\
+  dumps_ok (hevs_dump_demo, run_h init_sys hevs_dump_demo) = true.
+Proof. vm_compute. repeat split; reflexivity. Qed.
